@@ -37,7 +37,8 @@ def build_request(i, m="GET", ver=11, conn="-", expect=False, framing=None, extr
     if ver == 11:
         hdrs.append(("host", "t"))
     if conn != "-":
-        hdrs.append(("connection", conn))
+        # header values are case-insensitive tokens: the text on the wire varies with the request number, the meaning does not
+        hdrs.append(("connection", conn if i % 3 else (conn.capitalize() if i % 2 else conn.upper())))
     if expect:
         hdrs.append(("expect", "100-continue"))
     for h in (extra or []):
